@@ -157,30 +157,40 @@ func VH_C17_batch() {
 	anyStyle := vNondet[bool]("execAnyStyle")
 	errRes := !anyStyle && vNondet[bool]("item1ReturnsErrorResult")
 	e1 := vNewErr()
-	seen := 0
-	b := NewBatchNode().WithPrepFunc(func(ctx context.Context, s *SharedStore) ([]Result, error) {
+	c := vChoice("concurrency", 2) // sequential path and pooled path have their own slot-writing code
+	if c > 0 {
+		vCover("batch-concurrent")
+	}
+	seen := [2]bool{}
+	which := func(it any) int {
+		// items are told apart by position: item 1 is the one that may return an error result
+		if vSame(it, v1) && (!vSame(it, v0) || seen[0]) {
+			return 1
+		}
+		return 0
+	}
+	b := NewBatchNode().WithBatchConcurrency(c).WithPrepFunc(func(ctx context.Context, s *SharedStore) ([]Result, error) {
 		return []Result{NewResult(v0), NewResult(v1)}, nil
 	})
 	if anyStyle {
 		vCover("batch-any-style")
 		b.WithExecFuncAny(func(ctx context.Context, it any) (any, error) {
-			if seen == 0 {
-				vAssert(vSame(it, v0), "batch-exec-receives-the-item")
-			} else {
-				vAssert(vSame(it, v1), "batch-exec-receives-the-item")
-			}
-			seen++
+			vMon(func() {
+				k := which(it)
+				vAssert(vSame(it, v0) || vSame(it, v1), "batch-exec-receives-the-item")
+				seen[k] = true
+			})
 			return x0, nil
 		})
 	} else {
 		b.WithExecFunc(func(ctx context.Context, it Result) (Result, error) {
-			if seen == 0 {
-				vAssert(vSame(it.Value(), v0), "batch-exec-receives-the-item")
-			} else {
-				vAssert(vSame(it.Value(), v1), "batch-exec-receives-the-item")
-			}
-			seen++
-			if seen == 2 && errRes {
+			k := 0
+			vMon(func() {
+				k = which(it.Value())
+				vAssert(vSame(it.Value(), v0) || vSame(it.Value(), v1), "batch-exec-receives-the-item")
+				seen[k] = true
+			})
+			if k == 1 && errRes {
 				return NewErrorResult(e1), nil
 			}
 			return NewResult(x0), nil
@@ -188,20 +198,27 @@ func VH_C17_batch() {
 	}
 	posted := false
 	b.WithPostFunc(func(ctx context.Context, s *SharedStore, items, results []Result) (Action, error) {
-		posted = true
-		vAssert(len(items) == 2 && len(results) == 2, "batch-post-sees-all")
-		vAssert(vSame(items[0].Value(), v0) && vSame(items[1].Value(), v1), "batch-post-items-unchanged")
-		vAssert(!results[0].IsError() && vSame(results[0].Value(), x0), "batch-post-receives-the-exec-value")
-		_, w0 := results[0].value.(Result)
-		vAssert(!w0, "batch-result-not-wrapped-twice")
-		if errRes {
-			vCover("batch-error-result")
-			vAssert(results[1].IsError() && results[1].Error() == e1, "batch-error-result-reaches-post")
-		} else {
-			vAssert(!results[1].IsError() && vSame(results[1].Value(), x0), "batch-post-receives-the-exec-value")
-		}
+		vMon(func() {
+			posted = true
+			vAssert(len(items) == 2 && len(results) == 2, "batch-post-sees-all")
+			if len(items) != 2 || len(results) != 2 {
+				return
+			}
+			vAssert(vSame(items[0].Value(), v0) && vSame(items[1].Value(), v1), "batch-post-items-unchanged")
+			vAssert(!results[0].IsError() && vSame(results[0].Value(), x0), "batch-post-receives-the-exec-value")
+			_, w0 := results[0].value.(Result)
+			vAssert(!w0, "batch-result-not-wrapped-twice")
+			if errRes {
+				vCover("batch-error-result")
+				vAssert(results[1].IsError() && results[1].Error() == e1, "batch-error-result-reaches-post")
+				_, w1 := results[1].value.(Result)
+				vAssert(!w1, "batch-result-not-wrapped-twice")
+			} else {
+				vAssert(!results[1].IsError() && vSame(results[1].Value(), x0), "batch-post-receives-the-exec-value")
+			}
+		})
 		return "done", nil
 	})
 	_, err := Run(vNewCtx(), b, NewSharedStore())
-	vAssert(err == nil && posted && seen == 2, "batch-run-succeeds")
+	vMon(func() { vAssert(err == nil && posted && seen[0] && seen[1], "batch-run-succeeds") })
 }
